@@ -2,6 +2,7 @@ import Kio.Proofs.Prim
 import Kio.Proofs.SpecEq
 import Kio.Model.Records
 import Kio.Spec.Batch
+import Kio.Proofs.BatchSpec
 /-! The record-batch writer model against the independent statement of the v2 format (C17). -/
 namespace Kio
 
@@ -21,25 +22,146 @@ def NewRecordBatch.params (nb : NewRecordBatch) : Spec.NewBatchParams :=
 def Record.msTimestamp (r : Record) : Prop :=
   r.timestampUs % 1000 = 0 ∧ 0 ≤ r.timestampUs ∧ r.timestampUs ≤ 253402300799999000
 
+/-! ### the writer's pieces against the spec's -/
+
+theorem header_eq (h : RecHeader) : (writeRecHeader h).toOption = Spec.headerBytes h.toWire := by
+  simp only [writeRecHeader, Spec.headerBytes, toOption_bindB, nbytes_eq, toOption_pureB,
+    RecHeader.toWire]
+  rfl
+
+theorem record_eq (bt bo : Int) (r : Record)
+    (hms : recMs RecCfg.repaired r.timestampUs = r.timestampUs / 1000) :
+    (writeRecord RecCfg.repaired bt bo r).toOption = Spec.recordBytes bt bo r.toWire := by
+  simp only [writeRecord, Spec.recordBytes, toOption_bindB, toOption_pureB, nbytes_eq, svar_eq,
+    encIntN_eq_spec, hms, Record.toWire, List.length_map,
+    concatMapE_eq writeRecHeader Spec.headerBytes RecHeader.toWire r.headers (fun a _ => header_eq a)]
+  rfl
+
+theorem post_eq (attrs lod bt mt pid pe bseq bo ple : Int) (records : List Record)
+    (hms : ∀ r ∈ records, recMs RecCfg.repaired r.timestampUs = r.timestampUs / 1000) :
+    (writePostChecksum RecCfg.repaired attrs lod bt mt pid pe bseq bo records).toOption =
+      Spec.coveredBytes
+        { baseOffset := bo, partitionLeaderEpoch := ple, attributes := attrs,
+          lastOffsetDelta := lod, baseTimestamp := bt, maxTimestamp := mt, producerId := pid,
+          producerEpoch := pe, baseSequence := bseq, records := records.map Record.toWire } := by
+  simp only [writePostChecksum, Spec.coveredBytes, toOption_bindB, toOption_pureB, encIntN_eq_spec,
+    List.length_map,
+    concatMapE_eq (writeRecord RecCfg.repaired bt bo) (Spec.recordBytes bt bo) Record.toWire records
+      (fun a ha => record_eq bt bo a (hms a ha))]
+  rfl
+
+/-- the batch the writer derives from `first :: rest` -/
+def derived (pid pe ple bseq attrs : Int) (first : Record) (rest : List Record) : Spec.WireBatch :=
+  { baseOffset := first.offset, partitionLeaderEpoch := ple, attributes := attrs,
+    lastOffsetDelta := ((first :: rest).getLast?.getD first).offset - first.offset,
+    baseTimestamp := first.timestampUs / 1000,
+    maxTimestamp := listMax ((first :: rest).map (·.timestampUs)) / 1000,
+    producerId := pid, producerEpoch := pe, baseSequence := bseq,
+    records := (first :: rest).map Record.toWire }
+
+theorem derive_cons (pid pe ple bseq attrs : Int) (first : Record) (rest : List Record) :
+    Spec.deriveBatch (NewRecordBatch.params
+      { producerId := pid, producerEpoch := pe, partitionLeaderEpoch := ple, baseSequence := bseq,
+        records := first :: rest, attributes := attrs }) =
+      some (derived pid pe ple bseq attrs first rest) := by
+  simp only [NewRecordBatch.params, List.map_cons, Spec.deriveBatch, derived]
+  have e1 := getLast_map_getD Record.toWire (first :: rest) first
+  rw [List.map_cons] at e1
+  rw [e1]
+  have e2 : List.foldl max first.toWire.timestampMs (List.map (fun x => x.timestampMs) (List.map Record.toWire rest))
+      = listMax (first.timestampUs :: List.map (fun x => x.timestampUs) rest) / 1000 := by
+    simp only [listMax, foldl_max_div, List.map_map]
+    rfl
+  rw [e2]
+  rfl
+
+theorem listMax_ms {first : Record} {rest : List Record}
+    (hts : ∀ r ∈ first :: rest, r.msTimestamp) :
+    let m := listMax ((first :: rest).map (·.timestampUs))
+    m % 1000 = 0 ∧ 0 ≤ m ∧ m ≤ 253402300799999000 := by
+  simp only [List.map_cons, listMax]
+  apply foldl_max_pred (fun m => m % 1000 = 0 ∧ 0 ≤ m ∧ m ≤ 253402300799999000)
+  · exact hts first (by simp)
+  · intro b hb
+    obtain ⟨r, hr, rfl⟩ := List.mem_map.mp hb
+    exact hts r (by simp [hr])
+
+theorem hms_of (hfl : FloatExact) {l : List Record} (hts : ∀ r ∈ l, r.msTimestamp) :
+    ∀ r ∈ l, recMs RecCfg.repaired r.timestampUs = r.timestampUs / 1000 := fun r hr =>
+  recMs_ms hfl (hts r hr).1 (hts r hr).2.1 (hts r hr).2.2
+
 /-- **C17 layout**: whatever `write_new_batch` emits is the v2 layout of the correctly derived
     batch parameters -/
 theorem writeNewBatch_eq_spec (hfl : FloatExact) (nb : NewRecordBatch)
     (hts : ∀ r ∈ nb.records, r.msTimestamp) (bs : Bytes)
     (h : writeNewBatch RecCfg.repaired nb = .ok bs) :
     ∃ wb, Spec.deriveBatch nb.params = some wb ∧ Spec.batchBytes wb = some bs := by
-  sorry
+  obtain ⟨pid, pe, ple, bseq, records, attrs⟩ := nb
+  cases records with
+  | nil => simp [writeNewBatch] at h
+  | cons first rest =>
+    refine ⟨_, derive_cons pid pe ple bseq attrs first rest, ?_⟩
+    simp only at hts
+    simp only [writeNewBatch] at h
+    obtain ⟨lod, h1, h⟩ := bind_ok h
+    obtain ⟨bt, h2, h⟩ := bind_ok h
+    obtain ⟨mt, h3, h⟩ := bind_ok h
+    obtain ⟨post, h4, h⟩ := bind_ok h
+    obtain ⟨bl, h5, h⟩ := bind_ok h
+    obtain ⟨pre, h6, h⟩ := bind_ok h
+    have h : pre ++ post = bs := Except.ok.inj h
+    subst h
+    obtain ⟨rfl, -⟩ := phantomInt_ok h1
+    obtain ⟨rfl, -⟩ := phantomInt_ok h2
+    obtain ⟨rfl, -⟩ := phantomInt_ok h3
+    obtain ⟨rfl, -⟩ := phantomInt_ok h5
+    have hm := listMax_ms hts
+    simp only at hm
+    rw [recMs_ms hfl hm.1 hm.2.1 hm.2.2, hms_of hfl hts first (by simp)] at h4
+    have hcov : Spec.coveredBytes (derived pid pe ple bseq attrs first rest) = some post := by
+      rw [← toOption_okB, post_eq _ _ _ _ _ _ _ _ ple _ (hms_of hfl hts)] at h4
+      exact h4
+    obtain ⟨o, len, p, c, ho, hlen, hp, hc, rfl⟩ := pre_ok_iff.mp h6
+    exact batchBytes_of hcov ho hlen hp hc
 
 /-- converse: when the derived batch has a v2 encoding, the writer produces it -/
 theorem spec_eq_writeNewBatch (hfl : FloatExact) (nb : NewRecordBatch)
     (hts : ∀ r ∈ nb.records, r.msTimestamp) (wb : Spec.WireBatch) (bs : Bytes)
     (hd : Spec.deriveBatch nb.params = some wb) (h : Spec.batchBytes wb = some bs) :
     writeNewBatch RecCfg.repaired nb = .ok bs := by
-  sorry
+  obtain ⟨pid, pe, ple, bseq, records, attrs⟩ := nb
+  cases records with
+  | nil => simp [NewRecordBatch.params, Spec.deriveBatch] at hd
+  | cons first rest =>
+    rw [derive_cons] at hd
+    have hd : derived pid pe ple bseq attrs first rest = wb := Option.some.inj hd
+    subst hd
+    simp only at hts
+    obtain ⟨cov, o, len, p, c, hcov, ho, hlen, hp, hc, rfl⟩ := batchBytes_ok h
+    obtain ⟨_, l, t0, t1, _, _, _, _, _, -, hl, ht0, ht1, -⟩ := coveredBytes_ok hcov
+    have hm := listMax_ms hts
+    simp only at hm
+    have r1 := phantomInt_of_range (bits := 32) (intBE_range hl)
+    have r2 := phantomInt_of_range (bits := 64) (intBE_range ht0)
+    have r3 := phantomInt_of_range (bits := 64) (intBE_range ht1)
+    have r5 := phantomInt_of_range (bits := 32) (intBE_range hlen)
+    have h4 : writePostChecksum RecCfg.repaired attrs
+        (((first :: rest).getLast?.getD first).offset - first.offset) (first.timestampUs / 1000)
+        (listMax ((first :: rest).map (·.timestampUs)) / 1000) pid pe bseq first.offset
+        (first :: rest) = .ok cov := by
+      rw [← toOption_okB, post_eq _ _ _ _ _ _ _ _ ple _ (hms_of hfl hts)]
+      exact hcov
+    have h6 := pre_ok_iff.mpr ⟨o, len, p, c, ho, hlen, hp, hc, rfl⟩
+    simp only [derived] at r1 r2 r3 h6
+    simp only [writeNewBatch]
+    rw [recMs_ms hfl hm.1 hm.2.1 hm.2.2, hms_of hfl hts first (by simp)]
+    exact ebind_intro r1 (ebind_intro r2 (ebind_intro r3 (ebind_intro h4
+      (ebind_intro r5 (ebind_intro h6 rfl)))))
 
 /-- the independent decoder inverts the independent encoder -/
 theorem spec_decBatch_batchBytes (b : Spec.WireBatch) (bs : Bytes)
-    (h : Spec.batchBytes b = some bs) : Spec.decBatch bs = some b := by
-  sorry
+    (h : Spec.batchBytes b = some bs) : Spec.decBatch bs = some b :=
+  decBatch_batchBytes b bs h
 
 /-- the CRC field (bytes 17..20) is the CRC-32C of exactly the bytes from offset 21 to the end,
     and the batch-length field (bytes 8..11) counts everything after it -/
@@ -47,7 +169,7 @@ theorem spec_crc_covers (b : Spec.WireBatch) (bs : Bytes) (h : Spec.batchBytes b
     21 ≤ bs.length ∧
     Spec.intBE 4 false (Crc.crc32c (bs.drop 21)) = some ((bs.drop 17).take 4) ∧
     Spec.intBE 4 true ((bs.length : Int) - 12) = some ((bs.drop 8).take 4) ∧
-    bs[16]? = some 2 := by
-  sorry
+    bs[16]? = some 2 :=
+  crc_covers b bs h
 
 end Kio
